@@ -17,6 +17,16 @@ type LoopSpec struct {
 	Invariants []Clause
 	Decreases  *Clause
 	Unroll     int
+	Uses       []LemmaUse // lemma instances asserted at the loop head (after the invariants are assumed)
+}
+
+// LemmaUse is a proof hint: one instance of a proved lemma, with the given
+// arguments, is assumed at a program point. Sound because the lemma itself is
+// an obligation of the same check.
+type LemmaUse struct {
+	Name string
+	Args []Clause
+	Text string
 }
 
 type Contract struct {
@@ -29,6 +39,7 @@ type Contract struct {
 	Ensures  []Clause
 	Modifies []Clause
 	Loops    map[int]*LoopSpec
+	Uses     []LemmaUse // lemma instances asserted at function entry
 	Nowrap, Trusted, Pure, NilRecv, NoNil bool
 	Props    []string
 	File     string
@@ -42,6 +53,7 @@ type SpecFunc struct {
 	Body   ast.Expr
 	Text   string
 	Rec    bool
+	PkgPath string
 }
 
 type Lemma struct {
@@ -50,6 +62,8 @@ type Lemma struct {
 	Props   []string
 	Clause  Clause
 	Axiom   bool
+	Params  [][2]string // (name, Go type): universally quantified values (and, implicitly, the heap they live in)
+	Induct  string      // parameter the lemma is proved by induction on (natural numbers)
 }
 
 type ObjInv struct {
@@ -109,6 +123,7 @@ type Hook struct {
 	Params  []string
 	When    *Clause
 	Updates []GhostUpdate
+	Uses    []LemmaUse
 	Guard   *Clause // for guard rules: requires
 	Props   []string
 	Text    string
@@ -126,7 +141,7 @@ func newContractSet() *ContractSet {
 var clauseKeywords = map[string]bool{"func": true, "extern": true, "spec": true, "lemma": true, "axiom": true, "objinv": true,
 	"requires": true, "ensures": true, "modifies": true, "loop": true, "invariant": true, "decreases": true, "nowrap": true,
 	"trusted": true, "pure": true, "nilrecv": true, "props": true, "fnfield": true, "iface": true, "ghost": true, "hook": true, "guard": true,
-	"update": true, "when": true, "uf": true, "stable": true, "monitor": true, "unroll": true, "nonil": true, "structural": true, "globalinv": true}
+	"update": true, "when": true, "uf": true, "stable": true, "monitor": true, "unroll": true, "nonil": true, "structural": true, "globalinv": true, "use": true}
 
 // parseContractLines parses the //@ lines of one file.
 func (cs *ContractSet) parseLines(lines []string, pkgPath, pkgName, file string, startLine []int) {
@@ -282,7 +297,14 @@ func (cs *ContractSet) parseLines(lines []string, pkgPath, pkgName, file string,
 				curLoop.Decreases = &c
 			}
 		case "spec":
-			_, rest = splitKw(rest) // "func"
+			k0, r0 := splitKw(rest)
+			isRec := false
+			if k0 == "rec" {
+				isRec = true
+				_, rest = splitKw(r0) // "func"
+			} else {
+				rest = r0
+			}
 			i := strings.Index(rest, "=")
 			// find the '=' that follows the closing paren of the header
 			depth := 0
@@ -299,15 +321,37 @@ func (cs *ContractSet) parseLines(lines []string, pkgPath, pkgName, file string,
 			hdr, body := rest[:i], strings.TrimSpace(rest[i+1:])
 			name, params, _ := parseHeader(hdr)
 			if c, ok := mk(l, body); ok {
-				sf := &SpecFunc{Name: name, Params: params, Body: c.Expr, Text: body}
+				sf := &SpecFunc{Name: name, Params: params, Body: c.Expr, Text: body, Rec: isRec, PkgPath: pkgPath}
 				cs.Specs[name] = sf
 			}
 			cur, curLoop, curHook = nil, nil, nil
 		case "lemma", "axiom":
+			// lemma NAME PROPS... [(p1 T1, p2 T2, ...)] [induction p]: body
 			i := strings.Index(rest, ":")
-			hdr := strings.Fields(rest[:i])
+			hdrText := rest[:i]
+			var lparams [][2]string
+			induct := ""
+			if j := strings.Index(hdrText, "("); j >= 0 {
+				k := strings.LastIndex(hdrText, ")")
+				if k < j {
+					errf(l, "lemma: unbalanced parameter list")
+					continue
+				}
+				for _, p := range splitTop(hdrText[j+1:k], ',') {
+					f := strings.Fields(strings.TrimSpace(p))
+					if len(f) >= 2 {
+						lparams = append(lparams, [2]string{f[0], strings.Join(f[1:], " ")})
+					}
+				}
+				tail := strings.Fields(hdrText[k+1:])
+				if len(tail) == 2 && tail[0] == "induction" {
+					induct = tail[1]
+				}
+				hdrText = hdrText[:j]
+			}
+			hdr := strings.Fields(hdrText)
 			if c, ok := mk(l, strings.TrimSpace(rest[i+1:])); ok {
-				lm := &Lemma{Name: hdr[0], PkgPath: pkgPath, Clause: c, Axiom: kw == "axiom"}
+				lm := &Lemma{Name: hdr[0], PkgPath: pkgPath, Clause: c, Axiom: kw == "axiom", Params: lparams, Induct: induct}
 				for _, h := range hdr[1:] {
 					lm.Props = append(lm.Props, h)
 				}
@@ -356,7 +400,7 @@ func (cs *ContractSet) parseLines(lines []string, pkgPath, pkgName, file string,
 				after = true
 				k2, r2 = splitKw(r2)
 			}
-			if k2 != "call" && k2 != "go" && k2 != "store" && k2 != "load" && k2 != "mapwrite" && k2 != "make" {
+			if k2 != "call" && k2 != "go" && k2 != "store" && k2 != "load" && k2 != "mapwrite" && k2 != "make" && k2 != "elemstore" {
 				errf(l, "hook/guard: expected call, go or store, got %q", k2)
 				continue
 			}
@@ -381,6 +425,35 @@ func (cs *ContractSet) parseLines(lines []string, pkgPath, pkgName, file string,
 			i := strings.Index(rest, "=")
 			if c, ok := mk(l, strings.TrimSpace(rest[i+1:])); ok && curHook != nil {
 				curHook.Updates = append(curHook.Updates, GhostUpdate{strings.TrimSpace(rest[:i]), c})
+			}
+		case "use":
+			// use LEMMA(arg, ...): assert one instance of a proved lemma here (a proof hint)
+			i := strings.Index(rest, "(")
+			j := strings.LastIndex(rest, ")")
+			if i < 0 || j < i {
+				errf(l, "use: expected LEMMA(args)")
+				continue
+			}
+			u := LemmaUse{Name: strings.TrimSpace(rest[:i]), Text: rest}
+			okAll := true
+			for _, a := range splitTop(rest[i+1:j], ',') {
+				c, ok := mk(l, strings.TrimSpace(a))
+				if !ok {
+					okAll = false
+					break
+				}
+				u.Args = append(u.Args, c)
+			}
+			if !okAll {
+				continue
+			}
+			switch {
+			case curHook != nil:
+				curHook.Uses = append(curHook.Uses, u)
+			case curLoop != nil:
+				curLoop.Uses = append(curLoop.Uses, u)
+			case cur != nil:
+				cur.Uses = append(cur.Uses, u)
 			}
 		default:
 			errf(l, "unknown contract keyword %q", kw)
